@@ -138,9 +138,9 @@ func generator(c *hx.Ctx, h *hist, cfg genCfg) opGen {
 				o.Hash = []string{"", "", "sha256", "h"}[c.Intn(4)]
 				o.PubBad = c.Intn(10) == 0
 				if cfg.allowBadImp && c.Intn(2) == 0 {
-					if k := c.Intn(4); k == 0 {
+					if k := c.Intn(5); k == 0 {
 						o.Pwd = ""
-					} else if k == 1 {
+					} else if k <= 2 {
 						o.Corrupt = []string{"salt", "key", "encalg", "curve"}[c.Intn(4)]
 					} else {
 						p := lightParams[c.Intn(len(lightParams))]
@@ -310,7 +310,7 @@ func Run(c *hx.Ctx) {
 		runHist(c, h, seq, generator(c, &h, cfg))
 	}
 	// histories in which the caller breaks an obligation on imports (foreign parameters, empty password)
-	for i := 0; i < c.N(6, 60) && !over("caller-bad"); i++ {
+	for i := 0; i < c.N(10, 80) && !over("caller-bad"); i++ {
 		h := hist{Stream: "caller-bad", Prm: lightParams[c.Intn(len(lightParams))], KeyTyp: randKeyTypes(c, 2+c.Intn(2))}
 		seq++
 		runHist(c, h, seq, generator(c, &h, genCfg{nOps: 4 + c.Intn(8), allowBadImp: true}))
